@@ -10,6 +10,8 @@ after evaluate() returns.
 """
 from __future__ import annotations
 
+import itertools
+
 import eqlmc  # noqa: F401
 from entity_query_language import (an, a, the, entity, set_of, let, symbolic_mode, rule_mode, Add, alternative, infer,
                                    MultipleSolutionFound, NoSolutionFound)
@@ -65,6 +67,14 @@ def cases(tier, inst):
                             if tier == "quick" and dk == "d2" and consume == "next":
                                 continue
                             yield (amb, quant, ck, head, k, dk, consume)
+    # --- an iterator that is STARTED outside every block and continued inside one (and the other way round): every step
+    #     of the evaluation runs as if no block was open, whatever was open when the iterator was created
+    for amb in ("query", "rule", "query_q", "rule_q"):
+        for ck in CONDS:
+            for k in (1, 2, 5):
+                for quant, head in (("an", "var"), ("infer", "ctor"), ("an", "add"), ("an", "addalt"), ("an", "ctor")):
+                    for consume in ("out_in", "in_out"):
+                        yield (amb, quant, ck, head, k, "d4", consume)
     # --- blocks entered WITH a query (`with symbolic_mode(q):`, `with rule_mode(q):`, q the evaluated query or another
     #     one): the open query block is not where expressions built by user code during the evaluation belong
     for amb in ("query_q", "rule_q", "rule_other"):
@@ -387,6 +397,8 @@ def run_case(case, inst):
                 return ("value", Q.norm(r))
             if consume == "list":
                 rows = list(q.evaluate())
+            elif consume in ("out_in", "in_out"):
+                rows = MIXED["rows"]
             else:
                 rows = []
                 it = q.evaluate()
@@ -407,8 +419,26 @@ def run_case(case, inst):
             return ("rows", sorted(repr(Q.norm(r)) if isinstance(r, (W.Item, W.Made)) else f"symbolic:{type(r).__name__}"
                                    for r in rows))
 
+        MIXED = {}
         try:
-            if ctx is None:
+            if consume in ("out_in", "in_out"):
+                rows = MIXED["rows"] = []
+                if consume == "out_in":
+                    it = q.evaluate()
+                    rows.extend(itertools.islice(it, 1))           # created and advanced once outside every block
+                    with ctx():
+                        rows.extend(it)                            # ... continued inside the block
+                        after = in_symbolic_mode()
+                else:
+                    with ctx():
+                        it = q.evaluate()
+                        rows.extend(itertools.islice(it, 1))
+                        after = in_symbolic_mode()
+                    rows.extend(it)                                # ... continued outside
+                got = evaluate()
+                if not after:
+                    notes.append("ambient-mode-lost-after-evaluate")
+            elif ctx is None:
                 got = evaluate()
                 after = in_symbolic_mode()
             else:
@@ -453,7 +483,10 @@ def describe(case, inst):
         build = (f"with symbolic_mode(): x = let(Item, D); q = {quant}(entity(views := let(View), {cond}))\n"
                  f"with rule_mode(q): Add(views, Made(a=x, b=x.p, c=1))"
                  + (f"\n    with alternative(x.q == {inst.v(2)}): Add(views, Made(a=x, b=x.p, c=2))" if head == "addalt" else ""))
-    ev = "q.evaluate()" if quant == "the" else ("list(q.evaluate())" if consume == "list" else "it = q.evaluate(); next(it) ... until exhausted")
+    ev = "q.evaluate()" if quant == "the" else ("list(q.evaluate())" if consume == "list" else
+                                                 "it = q.evaluate(); next(it) OUTSIDE every block, the rest of it inside the block" if consume == "out_in" else
+                                                 "it = q.evaluate(); next(it) inside the block, the rest of it OUTSIDE" if consume == "in_out" else
+                                                 "it = q.evaluate(); next(it) ... until exhausted")
     amb_s = {"none": "", "query": "with symbolic_mode(): ", "rule": "with rule_mode(): ", "query_q": "with symbolic_mode(q): ",
              "rule_q": "with rule_mode(q): ", "rule_other": "with rule_mode(<the same query built once more>): "}[amb]
     pre = ("\nwith symbolic_mode(): z = let(Item, DI); q0 = an(entity(z, z.p >= 1))\nit0 = q0.evaluate(); next(it0)   # stays open"
